@@ -1020,6 +1020,14 @@ func (rn *Runner) Run() {
 		tc := &tls.Config{ServerName: "mail.example.test", MinVersion: tls.VersionTLS12}
 		add(mail.WithSSLPort(cfg.Fallback), func(c *mail.Client) { c.SetSSLPort(true, cfg.Fallback) })
 		add(mail.WithTLSConfig(tc), func(c *mail.Client) { _ = c.SetTLSConfig(tc) })
+	} else if cfg.Fallback && cfg.Variant == "stalefallback" {
+		// a configuration history: opportunistic port policy first (587, fallback 25), the policy of the scenario afterwards
+		opts = append(opts, mail.WithTLSPortPolicy(mail.TLSOpportunistic))
+		if rn.T%2 == 0 {
+			post = append(post, func(c *mail.Client) { c.SetTLSPolicy(policy) })
+		} else {
+			post = append(post, func(c *mail.Client) { c.SetTLSPortPolicy(policy) })
+		}
 	} else if cfg.Fallback {
 		add(mail.WithTLSPortPolicy(policy), func(c *mail.Client) { c.SetTLSPortPolicy(policy) }) // 587 with fallback to 25 when opportunistic
 	} else if cfg.Variant == "customport" { // the port is chosen first (no TLS yet), the policy is tightened later through the port-policy setter
